@@ -84,13 +84,37 @@ def axisOfName (s : String) : Option Axis :=
 
 def isNodeType (s : String) : Bool := s == "node" || s == "text" || s == "comment" || s == "processing-instruction"
 
-/-- decimal numeral -> double: mantissa / 10^k, one correctly rounded division (exact for short numerals) -/
+/-- `m / 10^k` rounded to the nearest double, ties to even (what a correctly rounded `strtod` returns): exact integer
+arithmetic, result assembled from sign/exponent/fraction bits -/
+def decToDouble (m k : Nat) : Float :=
+  if m == 0 then 0.0 else
+  let den := 10 ^ k
+  -- e with 2^e ≤ m/den < 2^(e+1)
+  let e0 : Int := (m.log2 : Int) - (den.log2 : Int)
+  let ge (e : Int) : Bool := if e ≥ 0 then m ≥ den * 2 ^ e.toNat else m * 2 ^ (-e).toNat ≥ den      -- m/den ≥ 2^e
+  let e : Int := if ge (e0 + 1) then e0 + 1 else if ge e0 then e0 else e0 - 1
+  let round (sh : Int) : Nat :=                                 -- round(m/den · 2^sh), half to even
+    let n := if sh ≥ 0 then m * 2 ^ sh.toNat else m
+    let dd := if sh ≥ 0 then den else den * 2 ^ (-sh).toNat
+    let q := n / dd
+    let r := n % dd
+    if 2 * r > dd || (2 * r == dd && q % 2 == 1) then q + 1 else q
+  let biased : Int := e + 1023
+  if biased ≤ 0 then
+    Float.ofBits (round 1074).toUInt64                            -- subnormal (or rounds up to the least normal)
+  else
+    let mant := round (52 - e)
+    let (mant, biased) := if mant == 2 ^ 53 then (2 ^ 52, biased + 1) else (mant, biased)
+    if biased ≥ 2047 then 1.0 / 0.0
+    else Float.ofBits ((biased.toNat * 2 ^ 52 + (mant - 2 ^ 52)).toUInt64)
+
+/-- decimal numeral (digits, optional fraction) -> the nearest double -/
 def numeralValue (s : String) : Float :=
   let cs := s.toList
   let ip := cs.takeWhile Char.isDigit
   let fp := (cs.dropWhile Char.isDigit).drop 1
   let m := (ip ++ fp).foldl (fun a c => a * 10 + (c.toNat - 48)) 0
-  Float.ofNat m / Float.ofNat (10 ^ fp.length)
+  decToDouble m fp.length
 
 abbrev PR := Option (X × List LT)
 
